@@ -330,7 +330,43 @@ def _split_discipline(ctx, m, fi, state_sink):
                       f"{len(uses[nm])} uses", fi, st)
 
 
+def r21_6(ctx):
+    """keys duplicated for device sharding (jnp.repeat(keys, k, axis=0)) are restored by the inverse stride slice keys[::k]
+    under the same condition - the keys stored with the samples are what later iterations (and a resumed run) re-use."""
+    m = ctx.model
+    ctx.rule("R21.6", "sample keys duplicated with jnp.repeat(keys, k, axis=0) for sharding are restored with keys[::k] under the "
+                      "same condition before they are stored with the samples", floor=1)
+    for modn in ("nifty.re.optimize_kl", "nifty.re.evi"):
+        mod = m.module(modn)
+        for fi in mod.all_functions:
+            reps = [st for st in walk_no_nested(fi.node) if isinstance(st, ast.Assign) and isinstance(st.value, ast.Call)
+                    and call_name(st.value) == "repeat" and len(st.targets) == 1 and isinstance(st.targets[0], ast.Name)
+                    and st.value.args and src(st.value.args[0]) == st.targets[0].id]
+            if not reps:
+                continue
+            ctx.saw_func(fi)
+            from ..sibling import guarded_assignments
+            ga = guarded_assignments(fi.node)
+            for rp in reps:
+                v = rp.targets[0].id
+                k = src(rp.value.args[1]) if len(rp.value.args) > 1 else None
+                g_rep = next((frozenset(src(x) for x in g.guards) for g in ga if g.stmt is rp), frozenset())
+                undo = [g for g in ga if g.target == v and isinstance(g.value, ast.Subscript) and src(g.value.value) == v
+                        and g.stmt.lineno > rp.lineno]
+                key = f"{fi.key}::{src(rp)} is undone by {v}[::{k}]"
+                if not undo:
+                    ctx.bad("R21.6", key, f"`{v}` stays duplicated: the stored keys no longer identify the samples", fi, rp)
+                    continue
+                for u in undo:
+                    sl = u.value.slice
+                    good = isinstance(sl, ast.Slice) and sl.lower is None and sl.upper is None and sl.step is not None and src(sl.step) == k
+                    same_g = frozenset(src(x) for x in u.guards) == g_rep
+                    ctx.check("R21.6", key, good and same_g,
+                              f"undo statement `{src(u.stmt)}` under {sorted(src(x) for x in u.guards)}; repeat under {sorted(g_rep)}", fi, u.stmt)
+
+
 def run(ctx):
+    r21_6(ctx)
     r21_1(ctx)
     r21_2(ctx)
     r21_3(ctx)
